@@ -438,9 +438,10 @@ class Parser:
                     )
 
     def expand_expression(self, name: str, expr: str) -> Tuple[str, int]:
-        rdepth_limit = 10
         n = 0
         symbol_regex = r"\b(?P<symbol>[a-zA-Z_]+\w*)\b"
+        # Each pass replaces one symbol by its value: allow one pass per symbol
+        rdepth_limit = max(10, len(re.findall(symbol_regex, expr)))
         m = re.search(symbol_regex, expr)
         while m:
             symbol = m.group()
